@@ -40,6 +40,8 @@ func (m *csvModel) GetField(name string) eval.Value {
 		return eval.K(0)
 	case "Comma":
 		return eval.K(',')
+	case "Comment":
+		return eval.K(0)
 	}
 	return false
 }
@@ -56,6 +58,17 @@ func installCSV(ev *eval.Evaluator, recs [][]string) {
 		}
 		r := m.recs[m.pos]
 		m.pos++
+		// a line that begins with the Comment character (when one is set) is no record
+		if cc, ok := linConst(m.GetField("Comment")); ok && cc != 0 && len(r) > 0 && strings.HasPrefix(r[0], string(rune(cc))) {
+			for m.pos < len(m.recs) && len(m.recs[m.pos]) > 0 && strings.HasPrefix(m.recs[m.pos][0], string(rune(cc))) {
+				m.pos++
+			}
+			if m.pos >= len(m.recs) {
+				return eval.Tuple{eval.Slice{}, eval.ErrVal{Msg: eval.SSym("io.EOF")}}
+			}
+			r = m.recs[m.pos]
+			m.pos++
+		}
 		if n, ok := linConst(m.GetField("FieldsPerRecord")); ok && n > 0 && int(n) != len(r) {
 			return eval.Tuple{eval.Slice{}, eval.ErrVal{Msg: eval.S("record on line " + fmt.Sprint(m.pos) + ": wrong number of fields")}}
 		}
@@ -259,6 +272,8 @@ func c09Inputs(c *core.Ctx) {
 					rec.F["ID"] = eval.S("query") // a record may be called like a column of the header
 				} else if i == 2 {
 					rec.F["ID"] = eval.S("ref 1|2-3;x") // a name is data: separators of the other columns may occur in it
+				} else if i == 3 {
+					rec.F["ID"] = eval.S("#4 of run") // ... or a character some formats use for comments
 				}
 				rec.F["Idx"] = eval.K(int64(i))
 				rec.F["Seq"] = enc(s)
